@@ -788,7 +788,22 @@ func (h *vC03Hist) falseParents() []string {
 func (h *vC03Hist) opFailZ() {
 	q := h.randQ()
 	if fp := h.falseParents(); len(fp) > 0 && h.r.Intn(3) == 0 {
-		q.name = vC03MixCase(h.r, fp[h.r.Intn(len(fp))])
+		// a zone-wide failure on a false parent, probed at once from the names it is only a string suffix of,
+		// through each failure route (decoded lookup, wire lookup, the pipeline in both births)
+		z := fp[h.r.Intn(len(fp))]
+		q.name = vC03MixCase(h.r, z)
+		h.failZone(q)
+		for _, n := range h.names {
+			if len(n) > len(z) && strings.HasSuffix(vC03Lower(n), vC03Lower(z)) && !dns.IsSubDomain(z, n) && h.batteries < 3 {
+				h.batteries++
+				at := vC03Spec{q: vC03Q{name: vC03MixCase(h.r, n), qtype: []uint16{1, 28}[h.r.Intn(2)], qclass: q.qclass}, cd: h.r.Intn(3) == 0}
+				h.failAt(at)
+				h.failWireAt(at)
+				h.serve(at, false, 0)
+				h.serve(at, true, 0)
+			}
+		}
+		return
 	}
 	h.failZone(q)
 }
